@@ -29,7 +29,7 @@ use std::num::NonZero;
 
 const DEFAULT_RPS: usize = 10240;
 
-fn work_dir() -> String {
+pub(crate) fn work_dir() -> String {
     // the `--dir` argument of this run (also available as ctx.dir)
     let args: Vec<String> = std::env::args().collect();
     let base = args.iter().position(|a| a == "--dir").and_then(|i| args.get(i + 1).cloned()).unwrap_or_else(|| "/verif/work/tmp".into());
@@ -265,7 +265,7 @@ fn to_record_buf(case: &Case, r: &GRec) -> RecordBuf {
     b.build()
 }
 
-fn serial_of(name: Option<&bstr::BStr>) -> Option<usize> {
+pub(crate) fn serial_of(name: Option<&bstr::BStr>) -> Option<usize> {
     let name = name?;
     std::str::from_utf8(&name[1..]).ok()?.parse().ok()
 }
@@ -273,29 +273,29 @@ fn serial_of(name: Option<&bstr::BStr>) -> Option<usize> {
 // ------------------------------------------------------------------ the independent walker
 
 #[derive(Clone, Debug)]
-struct WSlice {
-    landmark: usize, // offset of the slice header block from the end of the container header
-    size: usize,     // slice header block + its data blocks, in bytes
-    ctx: (i64, i64, i64),
-    nrec: usize,
-    counter: u64,
+pub(crate) struct WSlice {
+    pub(crate) landmark: usize, // offset of the slice header block from the end of the container header
+    pub(crate) size: usize,     // slice header block + its data blocks, in bytes
+    pub(crate) ctx: (i64, i64, i64),
+    pub(crate) nrec: usize,
+    pub(crate) counter: u64,
 }
 #[derive(Clone, Debug)]
-struct WContainer {
-    offset: usize,
-    hdr_len: usize,
-    body_len: usize,
-    ch_len: usize, // the compression header block
-    ctx: (i64, i64, i64),
-    nrec: usize,
-    declared_landmarks: Vec<usize>,
-    slices: Vec<WSlice>,
+pub(crate) struct WContainer {
+    pub(crate) offset: usize,
+    pub(crate) hdr_len: usize,
+    pub(crate) body_len: usize,
+    pub(crate) ch_len: usize, // the compression header block
+    pub(crate) ctx: (i64, i64, i64),
+    pub(crate) nrec: usize,
+    pub(crate) declared_landmarks: Vec<usize>,
+    pub(crate) slices: Vec<WSlice>,
 }
 #[derive(Clone, Debug)]
-struct WFile {
-    start: usize, // offset of the first data container
-    containers: Vec<WContainer>,
-    eof_marker: bool,
+pub(crate) struct WFile {
+    pub(crate) start: usize, // offset of the first data container
+    pub(crate) containers: Vec<WContainer>,
+    pub(crate) eof_marker: bool,
 }
 
 struct Cur<'a> {
@@ -367,7 +367,7 @@ fn walk_block(c: &mut Cur) -> Result<(u8, u8, std::ops::Range<usize>, usize), St
     Ok((method, ctype, d0..d0 + csize, c.p - p0))
 }
 
-fn walk(bytes: &[u8]) -> Result<WFile, String> {
+pub(crate) fn walk(bytes: &[u8]) -> Result<WFile, String> {
     if bytes.len() < 26 || &bytes[..4] != b"CRAM" {
         return Err("walker: no CRAM file definition".into());
     }
@@ -448,15 +448,15 @@ fn walk(bytes: &[u8]) -> Result<WFile, String> {
 
 // ------------------------------------------------------------------ canonical text
 
-type Entry = (i64, usize, usize, usize, usize, usize); // ref (-1 = none), start, span, offset, landmark, size
+pub(crate) type Entry = (i64, usize, usize, usize, usize, usize); // ref (-1 = none), start, span, offset, landmark, size
 
-fn fmt_entries(es: &[Entry]) -> String {
+pub(crate) fn fmt_entries(es: &[Entry]) -> String {
     if es.is_empty() {
         return "-".into();
     }
     es.iter().map(|e| format!("{}:{}:{}:{}:{}:{}", e.0, e.1, e.2, e.3, e.4, e.5)).collect::<Vec<_>>().join(",")
 }
-fn entry_of(r: &crai::Record) -> Entry {
+pub(crate) fn entry_of(r: &crai::Record) -> Entry {
     (
         r.reference_sequence_id().map(|x| x as i64).unwrap_or(-1),
         r.alignment_start().map(usize::from).unwrap_or(0),
@@ -466,7 +466,7 @@ fn entry_of(r: &crai::Record) -> Entry {
         r.slice_length() as usize,
     )
 }
-fn record_of(e: &Entry) -> crai::Record {
+pub(crate) fn record_of(e: &Entry) -> crai::Record {
     crai::Record::new(if e.0 < 0 { None } else { Some(e.0 as usize) }, Position::new(e.1), e.2, e.3 as u64, e.4 as u64, e.5 as u64)
 }
 fn fmt_rec(r: &GRec) -> String {
@@ -478,7 +478,7 @@ fn fmt_rec(r: &GRec) -> String {
 fn fmt_recs(rs: &[GRec]) -> String {
     if rs.is_empty() { "-".into() } else { rs.iter().map(fmt_rec).collect::<Vec<_>>().join(";") }
 }
-fn fmt_ids(v: &[usize]) -> String {
+pub(crate) fn fmt_ids(v: &[usize]) -> String {
     if v.is_empty() { "-".into() } else { v.iter().map(|x| x.to_string()).collect::<Vec<_>>().join(",") }
 }
 /// the file as the model sees it: `hdrLen/chLen/size=recs+size=recs|…`
@@ -505,7 +505,7 @@ fn fmt_file(w: &WFile, recs: &[GRec]) -> String {
         .collect::<Vec<_>>()
         .join("|")
 }
-fn fmt_layout(w: &WFile) -> String {
+pub(crate) fn fmt_layout(w: &WFile) -> String {
     if w.containers.is_empty() {
         return "-".into();
     }
@@ -936,6 +936,7 @@ fn check_answer(ctx: &mut Ctx, case: &Case, vname: &str, rid: usize, q: Q, expec
 
 pub fn run(ctx: &mut Ctx) {
     if let Some(case) = ctx.replay_only.clone() {
+        if super::c19_more::replay(ctx, &case) { return; }
         let k: u64 = case.get(1).and_then(|s| s.parse().ok()).unwrap_or(0);
         match case.first().map(|s| s.as_str()) {
             Some("corpus") => {
@@ -960,4 +961,5 @@ pub fn run(ctx: &mut Ctx) {
         let emit = !ctx.tier_thorough || it % 4 == 0;
         run_case(ctx, &gen_case(ctx.seed.wrapping_mul(1_000_193).wrapping_add(it)), emit);
     }
+    super::c19_more::run(ctx);
 }
